@@ -41,6 +41,7 @@ Consume ==
   \/ Hook("FinalRanges")  /\ StageFmt("FinalRanges", Cur.rows)
   \/ Cur.ev = "Return"    /\ op \in CleanOps /\ Return(Cur.out)
   \/ Cur.ev = "Return"    /\ op \in ListOps  /\ ReturnList(Cur.out, Cur.items, Cur)
+  \/ Cur.ev = "Return"    /\ op \in ListOps  /\ ReturnListDirect(Cur.out, Cur.items, Cur)
   \/ Cur.ev = "Panic"     /\ Panic(Cur.at)
   \/ Cur.ev = "ErrReturn" /\ Fail(Cur.err)
   \/ Cur.ev = "Tokenize"  /\ ApiTokenize(Cur.toks, Cur.vals)
